@@ -7,6 +7,9 @@ VARIABLE i
 Verdict(c) ==
   LET R == Report(c.file) o == c.o IN
   IF c.status # "ok" THEN "stat_failed_" \o c.status
+  ELSE IF o.n_reports # 1 THEN "not_exactly_one_report_in_the_output"
+  ELSE IF o.foreign_lines # 0 THEN "foreign_lines_in_the_report"
+  ELSE IF o.has_cigar_section # c.cigar THEN "cigar_section_present_iff_requested"
   ELSE IF o.total # R.total THEN "total_wrong"
   ELSE IF o.primary # R.primary \/ o.secondary # R.secondary THEN "primary_secondary_split_wrong"
   ELSE IF o.total # o.primary + o.secondary THEN "total_is_not_primary_plus_secondary"
